@@ -117,6 +117,16 @@ META["C08"] = {
             "and whole-program behaviour of generated code are not decided. The RISC-V backend cannot print (see C18/C12 known finding).",
     "technique": "static analysis: abstract interpretation of MIR emission functions + symbolic execution of the emitted instruction templates (syntactic equality, no solver)",
 }
+META["C13"] = {
+    "level": "Exhaustive over the finite classes that determine the emitted save/align/call/restore sequence (environment size, "
+             "chirality pattern of the caller-saved window, argument placement, newline) and over all entry-argument counts: each "
+             "class's instruction list is obtained by abstract interpretation of the generator's MIR and checked on a symbolic "
+             "machine against the platform ABI. Found and repaired: AArch64 link register not saved with exactly 13 live variables.",
+    "design_ref": "DESIGN.md §4 C13 (R-ABI-*)",
+    "note": "Decides the print call sites and the routine frame; does not decide liveness of generated code beyond the variable "
+            "environment (every environment position is treated as live).",
+    "technique": "static analysis: abstract interpretation of emission functions (MIR facts) + symbolic machine with ABI clobber model",
+}
 
 NOT_APPLICABLE = {
     "C09": "Run-time heap invariant of *generated* code at every statement boundary of every execution; no path property of the "
@@ -126,5 +136,5 @@ NOT_APPLICABLE = {
 }
 # properties whose checks are not built yet are listed here until their rules exist (kept current by bin/gen-manifest)
 PENDING = "check not built yet in this round; planned rules are in DESIGN.md §4"
-for _p in ["C11", "C13", "C14", "C15", "C16", "C20"]:
+for _p in ["C11", "C14", "C15", "C16", "C20"]:
     NOT_APPLICABLE.setdefault(_p, PENDING)
